@@ -703,7 +703,9 @@ Record rd_case := {
   rd_out0 : obs (list QcCf);               (* get_output at point 0, per pin *)
   rd_full : obs (list (list QcCf));        (* get_full_output: one row per sweep point *)
   rd_data : obs (list (QcCf * QcCf));      (* get_data: (T, Amplitude) per sweep point *)
-  rd_AT0 : obs (QcCf * QcCf)               (* get_A, get_T at point 0 *)
+  rd_AT0 : obs (QcCf * QcCf);              (* get_A, get_T at point 0 *)
+  rd_sorted : list nat;                    (* the pins listed in the alphabetical order of their printable names *)
+  rd_s2pd : obs (list (list QcCf))         (* S2PD(): the matrix with rows and columns in that order *)
 }.
 
 Definition smodel_of (c : rd_case) (M : lmx) : smodel BQCf :=
@@ -716,8 +718,8 @@ Definition rd_verdict (c : rd_case) : verdict :=
   let u := map (fun e => ((0, fst e)%nat, snd e)) (rd_u c) in
   let conv := fun z : BQCf => if rd_power c then cabs2 z else z in
   let p := (0, fst (rd_pq c))%nat in let q := (0, snd (rd_pq c))%nat in
-  match rd_out0 c, rd_full c, rd_data c, rd_AT0 c with
-  | Obs o0, Obs fo, Obs dt, Obs at0 =>
+  match rd_out0 c, rd_full c, rd_data c, rd_AT0 c, rd_s2pd c with
+  | Obs o0, Obs fo, Obs dt, Obs at0, Obs sp =>
       let m0 := nth 0 ms (smodel_of c []) in
       let ok0 := all2 (fun pv x => cclose tol9 (conv (snd pv)) x) (get_output m0 u) o0 in
       let okf := all2 (fun row orow => all2 (fun pv x => cclose tol9 (conv (snd pv)) x) row orow)
@@ -725,8 +727,10 @@ Definition rd_verdict (c : rd_case) : verdict :=
       let okd := all2 (fun ta o => cclose tol9 (fst ta) (fst o) && cclose tol9 (snd ta) (snd o))
                       (data_table ms p q) dt in
       let oka := cclose tol9 (get_A m0 p q) (fst at0) && cclose tol9 (get_T m0 p q) (snd at0) in
-      if rd_same c && ok0 && okf && okd && oka then Agree else Differ
-  | _, _, _, _ => ImplError
+      let oks := all2 (fun r row => all2 (fun k x => cclose tol9 (get_A m0 (0, r)%nat (0, k)%nat) x) (rd_sorted c) row)
+                      (rd_sorted c) sp in
+      if rd_same c && ok0 && okf && okd && oka && oks then Agree else Differ
+  | _, _, _, _, _ => ImplError
   end.
 
 (* ---- C13: modes ---- *)
